@@ -121,28 +121,19 @@ fn known_class(cat: Cat, pre: &Dump, m: &MMsg, rcode: u16) -> Option<&'static st
                 .unwrap_or(false)
     });
 
+    // C12-apex-delete-all, C12-delete-name-keeps-ns (fix 9a1aca9) and C12-serial-arith (fix 118f816)
+    // are repaired: they are no longer known classes, a reappearance is a plain oracle failure
+    let _ = (t_apex_wipe, t_serial_max, t_soa_cmp, t_keeps_ns, rcode, spre);
     let pick = |c: &[(bool, &'static str)]| c.iter().find(|(t, _)| *t).map(|(_, id)| *id);
     match cat {
-        Panic => pick(&[(t_serial_max, "C12-serial-arith"), (t_apex_wipe, "C12-apex-delete-all")]),
-        Invariant => pick(&[(t_apex_wipe, "C12-apex-delete-all"), (t_soa_not_apex, "C12-soa-not-apex"), (t_serial_max, "C12-serial-arith")]),
-        RejectChanged => pick(&[(t_apex_wipe && rcode == 2, "C12-apex-delete-all")]),
-        Decision => pick(&[
-            (t_apex_wipe && rcode == 2, "C12-apex-delete-all"),
-            (t_via_lookup, "C12-prereq-via-lookup"),
-            (t_subset, "C12-prereq-subset"),
-            (t_empty, "C12-empty-rrset-kept"),
-        ]),
-        Content => pick(&[
-            (t_apex_wipe, "C12-apex-delete-all"),
-            (t_soa_not_apex, "C12-soa-not-apex"),
-            (t_keeps_ns, "C12-delete-name-keeps-ns"),
-            (t_ttl, "C12-ttl-not-replaced"),
-            (t_empty, "C12-empty-rrset-kept"),
-            (t_soa_cmp, "C12-serial-arith"),
-        ]),
-        SerialStuck => pick(&[(t_apex_wipe, "C12-apex-delete-all"), (t_ttl, "C12-ttl-not-replaced"), (t_soa_cmp, "C12-serial-arith"), (t_empty, "C12-empty-rrset-kept")]),
-        SerialMoved => pick(&[(t_apex_wipe, "C12-apex-delete-all"), (t_soa_cmp, "C12-serial-arith"), (t_empty, "C12-empty-rrset-kept"), (t_bump(), "C12-serial-bump-without-change")]),
-        SerialBehind => pick(&[(t_apex_wipe, "C12-apex-delete-all"), (t_soa_cmp, "C12-serial-arith")]),
+        Panic => None,
+        Invariant => pick(&[(t_soa_not_apex, "C12-soa-not-apex")]),
+        RejectChanged => None,
+        Decision => pick(&[(t_via_lookup, "C12-prereq-via-lookup"), (t_subset, "C12-prereq-subset"), (t_empty, "C12-empty-rrset-kept")]),
+        Content => pick(&[(t_soa_not_apex, "C12-soa-not-apex"), (t_ttl, "C12-ttl-not-replaced"), (t_empty, "C12-empty-rrset-kept")]),
+        SerialStuck => pick(&[(t_ttl, "C12-ttl-not-replaced"), (t_empty, "C12-empty-rrset-kept")]),
+        SerialMoved => pick(&[(t_empty, "C12-empty-rrset-kept"), (t_bump(), "C12-serial-bump-without-change")]),
+        SerialBehind => None,
     }
 }
 
